@@ -205,6 +205,7 @@ def coordinator(args):
     by_id = dict((r['id'], r) for r in primary)
     # determinism across hash seeds: same run id => same event-log digest
     compared = 0
+    diverged = []
     for hs in hash_seeds[1:]:
         for r in cells[hs]['results']:
             p = by_id.get(r['id'])
@@ -212,13 +213,16 @@ def coordinator(args):
                 continue
             compared += 1
             if p['digest'] != r['digest']:
-                log('HARNESS ERROR: run %s differs between PYTHONHASHSEED=%s '
-                    'and %s (%s vs %s): one seed is not one execution'
-                    % (r['id'], hash_seeds[0], hs, p['digest'][:12],
-                       r['digest'][:12]))
-                if hasattr(mod, 'explain_divergence'):
-                    log(mod.explain_divergence(p, r))
-                return 2
+                diverged.append((r['id'], hs, p['digest'][:12],
+                                 r['digest'][:12]))
+    hash_viols = []
+    if diverged and hasattr(mod, 'hash_seed_dependence'):
+        # the system under test itself may depend on the hash seed (e.g.
+        # iteration over a set decides a merge order): where the property
+        # covers that, it is a violation, not a harness problem
+        hash_viols = mod.hash_seed_dependence(
+            dict((hs, cells[hs]['results']) for hs in hash_seeds), diverged)
+    unexplained_divergence = bool(diverged and not hash_viols)
     try:
         coverage = mod.summarise(primary, prop) \
             if mod.summarise.__code__.co_argcount >= 2 else mod.summarise(primary)
@@ -254,7 +258,7 @@ def coordinator(args):
             for sig, n in (r.get('violation_counts') or {}).items():
                 if hs == hash_seeds[0]:
                     counts[sig] = counts.get(sig, 0) + n
-    for v in list(extra) + list(more):
+    for v in list(extra) + list(more) + list(hash_viols):
         v = dict(v)
         v.setdefault('hash_seed', hash_seeds[0])
         viols.append(v)
@@ -266,6 +270,18 @@ def coordinator(args):
             counts[v['signature']] = sum(1 for w in viols
                                          if w['signature'] == v['signature'])
     unknown = [s for s in first if s not in known]
+    if unexplained_divergence:
+        rid, hs, a, b = diverged[0]
+        msg = ('run %s differs between PYTHONHASHSEED=%s and %s (%s vs %s); '
+               '%d runs differ' % (rid, hash_seeds[0], hs, a, b,
+                                   len(diverged)))
+        if not unknown:
+            log('HARNESS ERROR: %s: one seed is not one execution' % msg)
+            return 2
+        # violations were found: state leaking between operations of the
+        # system under test also makes runs depend on how they are spread
+        # over workers; the violations are what gets reported
+        log('note: %s (reported violations take precedence)' % msg)
     wall_cells = time.time() - t0
     evals = max(1, coverage.get('evaluations', 1))
     coverage['runs_per_hour'] = int(evals / max(wall_cells, 1e-6) * 3600)
